@@ -880,7 +880,10 @@ class Engine:
 
     def only_fresh_writes(self, after, before, watermark):
         """every attribute store made between `before` and `after` targets an object allocated after `watermark`"""
+        ignore = getattr(self.contract, 'ignore_fields', ()) if self.contract else ()
         for a, arr in after.fields.items():
+            if a in ignore:
+                continue          # declared: no clause of this contract depends on the attribute (message texts)
             base = before.fields.get(a)
             cur = arr
             while True:
@@ -1197,7 +1200,11 @@ class Engine:
             if key is not None and bound is not None:
                 kw2 = dict(kw)
                 selfv = None
+                posb = {}
                 for p in bound:
+                    if z3.is_true(z3.simplify(V.is_Int(V.fst(p)))):
+                        posb[z3.simplify(V.i(V.fst(p))).as_long()] = z3.simplify(V.snd(p))
+                        continue
                     k = z3.simplify(V.s(V.fst(p)))
                     name = interned_text(k.as_long()) if z3.is_int_value(k) else None
                     if name is None:
@@ -1207,7 +1214,7 @@ class Engine:
                     elif name not in kw2:
                         kw2[name] = z3.simplify(V.snd(p))
                 if key in self.T.functions:
-                    return self.call_repo_function(key, st, ([selfv] if selfv is not None else []) + list(a), kw2)
+                    return self.call_repo_function(key, st, ([selfv] if selfv is not None else []) + [posb[i] for i in sorted(posb)] + list(a), kw2)
         return self.havoc_call(f"value {f.sexpr()[:40]}", st)
 
     def call_repo_function(self, key, st, a, kw):
